@@ -282,6 +282,22 @@ def run_stream_cases(c, cs):
     return execs
 
 
+def cli_part(c, prop, which, tag):
+    """the command line tools as a user runs them (tools/clilib.py): files of sizes around the tools' 4096-byte buffer, both ways, judged by CryptoTrace.tla"""
+    import clilib
+    sizes = [0, 1, 15, 16, 17, 4080, 4095, 4096, 4097, 4111, 4112, 4113, 8191, 8192, 8193, 10000] + ([] if c.quick else [12287, 12288, 12289, 16383, 16384, 16385, 65535, 65536, 65537, 100000])
+    runs = clilib.sweep(c, prop, which, sizes, tag)
+    rej, states = vlib.validate("CryptoTrace", [evs for _, evs in runs], tag=tag + "cli", timeout=900)
+    c.cov["cli_runs"] = len(runs)
+    c.cov["traces_validated_against_impl"] = c.cov.get("traces_validated_against_impl", 0) + len(runs)
+    for i, j, ev in rej:
+        key, evs = runs[i]
+        what = ("a modified protected file was accepted by `gmssl %s -decrypt`" % ev.get("f", "")[4:]) if ev.get("e") == "CliTamper" else \
+               "`gmssl %s`: a %d-byte file did not come back from encrypt + decrypt, or the protected file differs from the reference construction (rc %s/%s, same=%s, refsame=%s, %d -> %d -> %d bytes)" % (
+                   ev.get("f", "")[4:], ev.get("n", -1), ev.get("rc1"), ev.get("rc2"), ev.get("same"), ev.get("refsame"), ev.get("n", -1), ev.get("midlen", -1), ev.get("outlen", -1))
+        c.violation(key + (":" + ev.get("what", "") if ev.get("e") == "CliTamper" else ""), what, {"events": evs})
+
+
 def body():
     c = Check("C04", "model_checking")
     for kind in ("enc", "dec", "aead"):
@@ -300,6 +316,7 @@ def body():
                 run_cases(c, cs[::6] if c.quick else cs[::4], variant=variant, tag="c04" + variant)
             except RuntimeError as ex:
                 c.note("variant %s not run: %s" % (variant, str(ex)[:200]))
+    cli_part(c, "C04", ["sm4_ecb", "sm4_cbc", "sm4_ctr", "sm4_ofb", "sm4_cfb", "zuc"], "c04")
     for k, case, evs in execs[:1] + execs[len(execs) // 2:len(execs) // 2 + 1]:
         c.sample({"case": {kk: (vv if len(str(vv)) < 70 else str(vv)[:67] + "...") for kk, vv in case.items()},
                   "events": [json.dumps({kk: (vv if kk not in ("T", "in", "out", "key", "iv", "aad") else "<%d>" % len(vv)) for kk, vv in e.items()})[:220] for e in evs]})
